@@ -41,15 +41,16 @@ const ruleC13 = "one evaluation = one generated floatingip configuration (1-4 po
 	"requesting 1-4 IPs through request_ip_range (or none): (a) the REAL galaxy-ipam Filter/Bind path (crdIpam + schedulerplugin over the simulated API server) allocates and writes the " +
 	"k8s.v1.cni.galaxy.io/args annotation, (b) the REAL galaxy daemon passes it through its request handler and argument builder to a fake plugin that decodes CNI_ARGS with the plugins' own " +
 	"cni/ipam.Allocate, (c) the decoded (address, prefix length, gateway, VLAN) list is compared, in order, with the FloatingIP objects stored for the pod and with the generated pool " +
-	"configuration (the model side is the generated configuration only). Scope: there is NO schedule or fault dimension (one task at a time, no faults); the value is the composition of the " +
-	"three real codecs over generated configurations. A run is non-trivial if the pod was bound. distinct_nontrivial = distinct (configuration, request) pairs."
+	"configuration (the model side is the generated configuration only). Fault dimension: in half of the runs the first attempt's pods/binding calls all fail and the pod is bound by a " +
+	"second attempt, optionally after a restart of galaxy-ipam on a re-ordered configuration (counters c13.bound-at-second-attempt, c13.restart-between-attempts, " +
+	"c13.pools-reordered-at-restart); otherwise one task at a time. The value is the composition of the three real codecs over generated configurations. A run is non-trivial if the pod was bound. distinct_nontrivial = distinct (configuration, request) pairs."
 
 func init() {
 	specs["C13"] = propSpec{World: "c13", Level: "exploration", Quick: 15, Thorough: 300, Rule: ruleC13, Assume: []string{
 		"real code: pkg/ipam/floatingip (configuration decoding, crdIpam allocation), pkg/ipam/schedulerplugin (Filter, Bind, annotation encoder constant.MarshalCniArgs), pkg/galaxy (cni handler, getPod, resolveNetworks, parseExtendedCNIArgs), pkg/api/cniutil (BuildCNIArgs, CmdAdd, delegate invocation), cni/ipam.Allocate and cniutil.IPInfoToResult (plugin-side decoder)",
 		"stubbed: kube-apiserver and listers (simkube), CNI plugin binary (in-process recording runtime that runs the real decoder), file system, iptables, container runtime",
 		"the pod and pool configuration are valid by construction (ranges inside their subnet, pairwise disjoint request lists); pods that galaxy-ipam refuses to bind make no claim and are counted as not-bound",
-		"sampling over configurations; no interleaving or fault is explored because none can influence a pure composition of codecs",
+		"sampling over configurations (pools may share a pod subnet and gateway with disjoint ranges and their own VLAN); in half of the runs every pods/binding call of the first scheduling attempt fails after the IPs were persisted and the scheduler retries, in two thirds of those galaxy-ipam is restarted in between (tables rebuilt from the stored objects, optionally on a configuration listing the same pools in reverse order): the annotation of the second attempt is what reaches the plugin. No other interleaving or fault is explored",
 	}}
 	realVsStub["c13"] = map[string]string{
 		"real":    "pkg/ipam/floatingip, pkg/ipam/schedulerplugin (Filter/Bind), pkg/api/galaxy/constant (annotation codec), pkg/galaxy request path, pkg/api/cniutil, cni/ipam.Allocate",
